@@ -134,6 +134,9 @@ type Client struct {
 	stateLock sync.RWMutex
 	// The sleep duration announced to the gateway by the last DISCONNECT.
 	sleepDuration time.Duration
+	// Exchanges started by the gateway (PUBLISH QoS 2). The gateway chooses
+	// their message IDs independently of ours: a store of their own.
+	brokerTransactions *transactions.TransactionStore
 }
 
 // NewClient sets up a new client according to the provided configuration.
@@ -148,6 +151,8 @@ func NewClient(log util.Logger, cfg *ClientConfig) *Client {
 		stateChangeCh:    make(chan util.ClientState, 1),
 		log:              log,
 		msgID:            util.NewIDSequence(pkts.MinPacketID, pkts.MaxPacketID),
+
+		brokerTransactions: transactions.NewTransactionStore(),
 	}
 }
 
